@@ -295,6 +295,9 @@ def r4(ctx, R):
                 return all(use_ok(u) for u in uses)
             return False
         ok = use_ok(n)
+        st = n
+        while not isinstance(st, ast.stmt):
+            st = pm[st]
         if not ok:
             R.bad(f, n, "ModelWriter.root used for something other than naming the temporary root, "
                         "the directory test or the final move", stmt=norm(st))
